@@ -3,7 +3,7 @@
    the model is the sharing-preserving copy Hybrid.unpickle. *)
 From Coq Require Import ZArith List Bool Lia.
 Import ListNotations.
-From XO Require Import Slots Chunks ChunksProofs AllocSpec AllocProofs Types RefOps Hybrid HybridProofs.
+From XO Require Import Slots Chunks ChunksProofs AllocSpec AllocProofs Types RefOps Hybrid HybridProofs PickleProofs.
 Open Scope Z_scope.
 
 Theorem C20_unpickle_shares : forall objs next memo r m i j oi oj ni nj,
@@ -18,6 +18,18 @@ Proof. exact unpickle_keeps_offsets. Qed.
 Theorem C20_allocator_still_valid : forall s o ob s', FInv s -> ff_step s o ob s' -> FInv s'.
 Proof. exact ff_step_FInv. Qed.
 
+(* a part pickled in the same call as its container comes back inside it, at the same place *)
+Theorem C20_part_stays_in_its_container : forall objs next memo r m i j oi oj ni nj d,
+  unpickle next memo objs = (r, m) ->
+  nth_error objs i = Some oi -> nth_error objs j = Some oj -> nth_error r i = Some ni -> nth_error r j = Some nj ->
+  fst oi = fst oj -> snd oj = snd oi + d ->
+  fst ni = fst nj /\ snd nj = snd ni + d.
+Proof. exact unpickle_part_stays_in_container. Qed.
+(* independence: every restored object lives in a buffer identity that did not exist before *)
+Theorem C20_restored_buffers_are_new : forall objs next r m, unpickle next [] objs = (r, m) -> forall x, In x r -> (next <= fst x)%nat.
+Proof. exact unpickle_fresh_buffers. Qed.
 Print Assumptions C20_unpickle_shares.
 Print Assumptions C20_unpickle_keeps_offsets.
 Print Assumptions C20_allocator_still_valid.
+Print Assumptions C20_part_stays_in_its_container.
+Print Assumptions C20_restored_buffers_are_new.
